@@ -231,6 +231,12 @@ func (e *C03) one(ctx *core.Ctx, cnt []int, n, untargeted int, mu, mpsf intstr.I
 				// not available either: Ready=Unknown (the node stopped reporting)
 				pod.Status.Conditions[0].Status = corev1.ConditionUnknown
 			}
+			if k == clsUpU && j%3 == 2 {
+				// not available: rejected by the kubelet's admission (a Failed pod kept as the node's pod while the
+				// clean-up of failed pods backs off): neither stuck unscheduled nor stuck terminating
+				pod.Status.Phase = corev1.PodFailed
+				pod.Status.Reason = []string{"OutOfcpu", "NodeAffinity", "Evicted"}[(j/3)%3]
+			}
 			if k == clsOldT {
 				d := metav1.NewTime(t0.Add(-5 * time.Second))
 				g := int64(30)
